@@ -147,6 +147,20 @@ def run_case(case):
                     p.__exit__(None, None, None)
             elif op[0] == "call":
                 ret = ENV[op[1]](op[2])
+            elif op[0] == "calld":
+                # f(v); at the point where f calls g the probe op[2] is deactivated (by the function f calls); f then finishes
+                orig_g = LW.g
+
+                def hook(y, op=op):
+                    LW.g = orig_g
+                    ACTIVE_OV.discard(op[2])
+                    probes[op[2]].__exit__(None, None, None)
+                    return orig_g(y)
+                LW.g = hook
+                try:
+                    ret = ENV["f"](op[1])
+                finally:
+                    LW.g = orig_g
             elif op[0] == "callno":
                 # a call made under no_overlay(): nobody hears it, and afterwards everything is as before
                 from ptera.overlay import no_overlay
